@@ -183,9 +183,9 @@ def createRejectPacket (p : List UInt8) (cap : Nat) : Res (Option (List UInt8)) 
     if p.length < 40 then pure none else v6Reject p cap
   else pure none
 
-/-- `iputil.MaxRejectPacketSize` = ipv6.HeaderLen + 8 + 1000 (the constant depends on x/net, which the
-translator does not load; tied by the harness op `maxsize`) -/
-def maxRejectPacketSize : Nat := 40 + 8 + 1000
+/-- `iputil.MaxRejectPacketSize` (= ipv6.HeaderLen + 8 + 1000), regenerated from the source (the translator
+resolves the x/net constants it depends on) -/
+def maxRejectPacketSize : Nat := Gen.iputil_MaxRejectPacketSize
 
 /-- what `rejectOutside` hands to `sendNoMetrics`: nothing for an empty result or one above the maximum -/
 def rejectOutsideOut (p : List UInt8) (cap : Nat) : Res (Option (List UInt8)) := do
